@@ -12,7 +12,8 @@
    The model mirrors the tree AFTER the repairs recorded in known_findings.json
    ("fixed": FWbinc-1 magnitude pruning, FWbinc-2 symbol ids exhausted, FWbinc-3
    timestamp components within len, F11-1 walker records symbols, F14-1(binc)
-   walker depth, F14-3(binc) decLen fits int, F02-1 reader skip).
+   walker depth, F14-3(binc) decLen fits int, F02-1 reader skip, F07-1n naked
+   SignedInteger overflow).
 
    binc is stateful: [estate] is the encoder's symbol table (bincEncState.m and
    encoderBase.seq), [dstate] the decoder's (bincDecState.s); both live as long
@@ -351,8 +352,14 @@ Definition dec_time (bs : list N) : res (Z * N) :=
   end.
 
 (* DecodeNaked on everything except arrays and maps; bd already split *)
+(* the tail of DecodeNaked: an unsigned value under SignedInteger becomes an int64;
+   one that does not fit (>= 2^63) halts there, after the value has been read
+   (chkOvf.SignedIntV, F07-1n repair) *)
+Definition uint_res (o : dopts) (u : N) (r : list N) (st : dstate) : res (item * list N * dstate) :=
+  if signedInt o then (if 2 ^ 63 <=? u then Err EOverflow else Ok (IInt (to_i64 u), r, st))
+  else Ok (IUint u, r, st).
+
 Definition dec_scalar (o : dopts) (vd vs : N) (st : dstate) (r : list N) : res (item * list N * dstate) :=
-  let uint (u : N) := if signedInt o then IInt (to_i64 u) else IUint u in
   if vd =? vdSpecial then
     if vs =? spNil then Ok (INil, r, st)
     else if vs =? spFalse then Ok (IBool false, r, st)
@@ -361,11 +368,11 @@ Definition dec_scalar (o : dopts) (vd vs : N) (st : dstate) (r : list N) : res (
     else if vs =? spPosInf then Ok (IF64 f64_posinf, r, st)
     else if vs =? spNegInf then Ok (IF64 f64_neginf, r, st)
     else if vs =? spZeroFloat then Ok (IF64 0, r, st)
-    else if vs =? spZero then Ok (uint 0, r, st)
+    else if vs =? spZero then uint_res o 0 r st
     else if vs =? spNegOne then Ok (IInt (-1), r, st)
     else Err EBadDesc
-  else if vd =? vdSmallInt then Ok (uint (vs + 1), r, st)
-  else if vd =? vdPosInt then do (u, r') <- dec_uint vs r ;; Ok (uint u, r', st)
+  else if vd =? vdSmallInt then uint_res o (vs + 1) r st
+  else if vd =? vdPosInt then do (u, r') <- dec_uint vs r ;; uint_res o u r' st
   else if vd =? vdNegInt then do (u, r') <- dec_uint vs r ;; Ok (IInt (to_i64 ((2 ^ 64 - u) mod 2 ^ 64)), r', st)
   else if vd =? vdFloat then do (f, r') <- dec_float vs r ;; Ok (IF64 (f64_canon f), r', st)
   else if vd =? vdString then
@@ -601,7 +608,7 @@ Fixpoint nodup_seen (seen : list item) (l : list item) : bool :=
 Fixpoint wfb (e : eopts) (d : dopts) (i : item) : Prop :=
   match i with
   | IInt z => (- 2 ^ 63 <= z < 2 ^ 63)%Z
-  | IUint n => n < 2 ^ 64
+  | IUint n => n < 2 ^ 64 /\ (signedInt d = true -> n < 2 ^ 63)   (* else Decode reports an overflow *)
   | IF32 b => b < 2 ^ 32
   | IF64 b => b < 2 ^ 64
   | IStr s => lenok s
